@@ -15,7 +15,7 @@ UT = 'tracklib.core.utils'
 EXPLANATION = (
     "Static analysis by interpretation of the source (tlint.orders walks the AST of Track.operate, the evaluator, makeRPN and the operator classes; nothing is imported or executed by CPython): about 560 expression trees over features holding zeros, negatives, equal values, NaN and tiny values are evaluated through the interpreted evaluator and compared with the same tree under ordinary arithmetic with the documented operator definitions; assignments must store under the left-hand name and change nothing else; without '=' the track must be left as it was; operator objects applied directly must give the values of the expression.")
 ASSUMPTIONS = ["numeric equality with real arithmetic for all trees/vectors is not decided; only kernels, parse order and the assignment arm are"]
-TECHNIQUE = "abstract interpretation of Track.operate(expression), makeRPN, the rewriting passes and the operator classes by the checker's AST interpreter on families of expression trees (every operator pair in both tree shapes, the four operand-kind arms, every documented function, unary minus, assignments, operator objects), compared with ordinary arithmetic computed by the checker (bounded case domain)"
+TECHNIQUE = "abstract interpretation of Track.operate(expression), makeRPN, the rewriting passes and the operator classes by the checker's AST interpreter on families of expression trees (every operator pair in both tree shapes, the four operand-kind arms, every documented function, unary minus, assignments, operator objects, the bracket form track[expression]), compared with ordinary arithmetic computed by the checker (bounded case domain)"
 
 SYMS = ['+', '-', '*', '/', '^', '>', '<']
 
